@@ -38,6 +38,10 @@ _SCALARS = (int, float, str, bytes, bool, type(None), complex)
 
 
 def _dict_items(d):
+    if isinstance(d, OrderedDict):
+        # an OrderedDict keeps its own order list: what a user sees is OrderedDict.items(), which can
+        # differ from the underlying dict storage when someone updated it through dict.update()
+        return list(OrderedDict.items(d))
     return list(dict.items(d))
 
 
